@@ -5,6 +5,8 @@ EXTENDS MemCopy
 MCPageDev2  == <<1, 2, 1>>
 MCPageDev1  == <<1, 1, 1>>
 MCPhys      == <<2, 0, 1>>
+MCSpare0    == <<>>
+MCSpare2    == <<2, 1>>          \* two spare frames: one on GPU 2, one on GPU 1
 \* one context: a 2-page buffer followed by a 1-page buffer
 MCBufs1     == <<[s |-> 0, n |-> 4, ctx |-> 1], [s |-> 4, n |-> 2, ctx |-> 1]>>
 \* two contexts sharing the address space: middle buffer belongs to context 2
